@@ -389,7 +389,7 @@ fn cmd_run(a: &Args) -> i32 {
         };
         let coord_pre = match &space {
             Some(sp) => format!("enum n={} base={} full={} idx={}", sp.n, sp.pair_base, sp.full_only, this),
-            None => format!("rand class={} seed={} idx={}", class.name(), seed, this),
+            None => format!("{} class={} seed={} idx={}", gen, class.name(), seed, this),
         };
         CUR.with(|c| {
             *c.borrow_mut() = Some(Cur { prop: prop.clone(), idx: this, next_idx: idx, coord: coord_pre, class, alloc_mode: cfg.alloc_mode, layout_seed: cfg.layout_seed });
@@ -401,6 +401,27 @@ fn cmd_run(a: &Args) -> i32 {
                 let mut g = |_: &World| it.next();
                 let r = run::run_history(&cfg, &mut g, 10_000);
                 (r, format!("enum n={} base={} full={} idx={} [{}]", sp.n, sp.pair_base, sp.full_only, this, desc))
+            }
+            None if gen == "script" || gen == "panic" => {
+                let mode = if gen == "script" { gen::ScriptMode::Reentrant } else { gen::ScriptMode::Panic };
+                let (ops, desc) = gen::script_ops(this, seed, mode);
+                let mut it = ops.into_iter();
+                // after the scripted part, a few random operations on the survivors
+                let tail = if gen == "panic" { 10 + (mix(this, 5) % 10) as usize } else { 6 };
+                let mut rg = RandGen::new(RandCfg { class: Class::Wf, max_objs: 8, len: tail, weak_bias: 1, consume_bias: 0 }, mix(seed, this));
+                let mut g = |w: &World| match it.next() {
+                    Some(o) => Some(o),
+                    None => rg.next(w),
+                };
+                let r = run::run_history(&cfg, &mut g, 100_000);
+                (r, format!("{} class={} seed={} idx={} [{}]", gen, class.name(), seed, this, desc))
+            }
+            None if gen == "family" => {
+                let (ops, desc) = gen::family_ops(this, seed, class, a.u64("max-n", 12) as usize);
+                let mut it = ops.into_iter();
+                let mut g = |_: &World| it.next();
+                let r = run::run_history(&cfg, &mut g, 100_000);
+                (r, format!("family class={} seed={} idx={} [{}]", class.name(), seed, this, desc))
             }
             None => {
                 let hseed = mix(seed, this);
